@@ -1239,6 +1239,70 @@ def eliminate_static_refs(prog, body):
 
 
 
+def forward_result_local(prog, body):
+    """`let mut outcome = Err(E); if c { ..; outcome = Ok(v) } outcome` – a local that is only ever assigned whole values, never
+    borrowed, and whose single use is the final `_0 = move outcome` is the return place under another name (named return value):
+    its assignments are rewritten into assignments of the return place, so that each path's result is the value assigned on it."""
+    raw = body.raw
+    nargs = raw.get("arg_count", 0)
+    uses, defs, other = {}, {}, set()
+    ret_moves = []
+    for bi, blk in enumerate(raw["blocks"]):
+        for si, s_ in enumerate(blk["stmts"]):
+            if s_.get("k") != "assign":
+                continue
+            rv = s_["rv"]
+            if not s_["dst"]["p"]:
+                defs.setdefault(s_["dst"]["l"], []).append((bi, si))
+            else:
+                other.add(s_["dst"]["l"])
+            if rv.get("k") == "use" and rv["a"]["k"] in ("move", "copy") and not rv["a"]["pl"]["p"] and s_["dst"]["l"] == 0 and not s_["dst"]["p"]:
+                ret_moves.append((bi, si, rv["a"]["pl"]["l"]))
+    if len(ret_moves) != 1:
+        return body
+    bi0, si0, L = ret_moves[0]
+    if L <= nargs or L in other or L not in defs or len(defs.get(0, [])) != 1:
+        return body
+    # every other mention of L must be one of its whole-value definitions
+    def mentions(obj, acc):
+        if isinstance(obj, list):
+            for x in obj:
+                mentions(x, acc)
+        elif isinstance(obj, dict):
+            for k, v in obj.items():
+                if k == "l" and v == L:
+                    acc.append(1)
+                elif k in ("sp", "fn_sp", "arg_tys"):
+                    continue
+                else:
+                    mentions(v, acc)
+    total = []
+    for blk in raw["blocks"]:
+        mentions(blk["stmts"], total)
+        mentions(blk["term"], total)
+    # definitions (dst) + the one move; drops / storage markers of L are tolerated by the count of `drop` terminators below
+    drops = sum(1 for blk in raw["blocks"] if blk["term"]["k"] == "drop" and blk["term"]["pl"]["l"] == L and not blk["term"]["pl"]["p"])
+    call_defs = sum(1 for blk in raw["blocks"] if blk["term"]["k"] == "call" and not blk["term"]["dst"]["p"] and blk["term"]["dst"]["l"] == L)
+    if len(total) != len(defs[L]) + 1 + drops + call_defs:
+        return body
+    new = json.loads(json.dumps(raw))
+    for (bi, si) in defs[L]:
+        new["blocks"][bi]["stmts"][si]["dst"]["l"] = 0
+    for blk in new["blocks"]:
+        t_ = blk["term"]
+        if t_["k"] == "call" and not t_["dst"]["p"] and t_["dst"]["l"] == L:
+            t_["dst"]["l"] = 0
+        if t_["k"] == "drop" and t_["pl"]["l"] == L and not t_["pl"]["p"]:
+            blk["term"] = {"k": "goto", "target": t_["target"], "sp": t_.get("sp")}
+    del new["blocks"][bi0]["stmts"][si0]
+    nb = Body(prog, new, promoted_of=None)
+    for attr in ("inlined", "inlined_from", "_pred_threaded"):
+        if hasattr(body, attr):
+            setattr(nb, attr, getattr(body, attr))
+    nb.inlined = True
+    return nb
+
+
 def thread_constant_flags(prog, body):
     """Jump threading for loop-control flags: a bool local that is only ever assigned the constants true / false and tested by a
     switch (`while !done { .. if c { done = true } .. }`).  An edge that sets the flag to a constant and then jumps to the testing
